@@ -55,20 +55,24 @@ class HarnessError(Exception):
 
 
 class Ok:
-    __slots__ = ("nontrivial", "labels")
+    __slots__ = ("nontrivial", "labels", "known")
 
-    def __init__(self, nontrivial, labels):
+    def __init__(self, nontrivial, labels, known=()):
         self.nontrivial = bool(nontrivial)
         self.labels = tuple(labels)
+        self.known = tuple(known)
 
 
-def ok(nontrivial, *labels):
-    return Ok(nontrivial, [l for l in labels if l])
+def ok(nontrivial, *labels, known=()):
+    """known: clause names (without the sub prefix) of violations observed in this case that are listed in
+    KNOWN_FINDINGS.txt and were therefore excluded from the verdict by the check (counted and reported as
+    KNOWN-FINDING lines, never silently dropped)"""
+    return Ok(nontrivial, [l for l in labels if l], known=known)
 
 
 class Sub:
     def __init__(self, name, strategy, func, quick, thorough, budget_quick=60.0, budget_thorough=420.0,
-                 min_nontrivial=None, per_shard_min=4):
+                 min_nontrivial=None, per_shard_min=4, group=None):
         self.name = name
         self.strategy = strategy
         self.func = func
@@ -77,6 +81,7 @@ class Sub:
         self.budget = {"quick": budget_quick, "thorough": budget_thorough}
         self.min_nontrivial = min_nontrivial
         self.per_shard_min = per_shard_min
+        self.group = group or name   # bucket prefix: subs that stratify one generator share a group (= one root-cause namespace)
 
 
 # ---------------------------------------------------------------------------------------------
@@ -156,12 +161,14 @@ class Stats:
         self.budget_hit = []
         self.harness_errors = []
         self.per_sub = {}
+        self.known_hits = Counter()   # bucket -> cases in which a listed finding was observed and excluded by the check
 
     def to_dict(self):
         return dict(evaluations=self.evaluations, nontrivial_hashes=sorted(self.nontrivial_hashes),
                     n_all=len(self.all_hashes), labels=dict(self.labels), rejected=dict(self.rejected),
                     inconclusive=dict(self.inconclusive), samples=self.samples, buckets=self.buckets,
-                    budget_hit=self.budget_hit, harness_errors=self.harness_errors, per_sub=self.per_sub)
+                    budget_hit=self.budget_hit, harness_errors=self.harness_errors, per_sub=self.per_sub,
+                    known_hits=dict(self.known_hits))
 
 
 class _BudgetStop(Exception):
@@ -178,7 +185,7 @@ def execute(sub, case, stats, seed=None, collect=True):
     try:
         res = sub.func(case)
     except Violation as v:
-        bucket, detail = f"{sub.name}:{v.bucket}", v.detail
+        bucket, detail = f"{sub.group}:{v.bucket}", v.detail
     except Reject as r:
         stats.rejected[f"{sub.name}:{str(r)[:60]}"] += 1
         return None
@@ -193,12 +200,14 @@ def execute(sub, case, stats, seed=None, collect=True):
             stats.harness_errors.append(dict(sub=sub.name, where=text, case=json.loads(canon(case)),
                                              tb=traceback.format_exc()[-3000:]))
             raise HarnessError(text) from exc
-        bucket, detail = f"{sub.name}:{text}", f"{type(exc).__name__}: {str(exc)[:300]}"
+        bucket, detail = f"{sub.group}:{text}", f"{type(exc).__name__}: {str(exc)[:300]}"
     else:
         if not isinstance(res, Ok):
             raise HarnessError(f"{sub.name} returned {type(res)} instead of Ok")
         for l in res.labels:
             stats.labels[f"{sub.name}:{l}"] += 1
+        for kb in res.known:
+            stats.known_hits[f"{sub.group}:{kb}"] += 1
         if res.nontrivial:
             if h not in stats.nontrivial_hashes:
                 stats.nontrivial_hashes.add(h)
@@ -235,14 +244,20 @@ def _hyp_settings(n, shrink=False):
                     verbosity=Verbosity.quiet)
 
 
-def run_sub(sub, n, seed, budget, stats):
+def run_sub(sub, n, seed, budget, stats, skip_first=False):
+    """skip_first: Hypothesis begins every run with the simplest example of the strategy; shards other than the
+    first one skip it (it would be the same case in every shard) and generate one more example instead"""
     from hypothesis import given, seed as hseed
     t_end = time.time() + budget
+    state = {"calls": 0}
 
     @hseed(seed)
-    @_hyp_settings(n)
+    @_hyp_settings(n + (1 if skip_first else 0))
     @given(sub.strategy)
     def test(case):
+        state["calls"] += 1
+        if skip_first and state["calls"] == 1:
+            return
         if time.time() > t_end:
             raise _BudgetStop()
         execute(sub, case, stats, seed=seed)
@@ -286,7 +301,7 @@ def _shard(args):
             if shard >= nshards:
                 continue
             n = max(1, -(-n_total // nshards))
-            run_sub(sub, n, seed * 1000 + shard, sub.budget[tier], stats)
+            run_sub(sub, n, seed * 1000 + shard, sub.budget[tier], stats, skip_first=(shard > 0))
     except HarnessError as e:
         if not stats.harness_errors:
             stats.harness_errors.append(dict(sub="?", where=str(e), tb=traceback.format_exc()[-3000:]))
@@ -304,6 +319,7 @@ def merge(dicts):
         m.rejected.update(d["rejected"])
         m.inconclusive.update(d["inconclusive"])
         m.budget_hit += d["budget_hit"]
+        m.known_hits.update(d.get("known_hits", {}))
         m.harness_errors += d["harness_errors"]
         for s in d["samples"]:
             if sum(1 for x in m.samples if x["sub"] == s["sub"]) < 2:
@@ -380,12 +396,12 @@ def safe_name(s):
     return "".join(c if c.isalnum() or c in "-_." else "_" for c in s)[:120]
 
 
-def write_replay(pid, bucket, case, detail):
+def write_replay(pid, bucket, case, detail, subname):
     d = os.path.join(HERE, "replays", pid)
     os.makedirs(d, exist_ok=True)
     path = os.path.join(d, safe_name(bucket) + ".json")
     with open(path, "w") as f:
-        json.dump(dict(property=pid, bucket=bucket, sub=bucket.split(":", 1)[0], detail=detail, case=case), f,
+        json.dump(dict(property=pid, bucket=bucket, sub=subname, detail=detail, case=case), f,
                   indent=1, sort_keys=True, default=_json_default)
     return os.path.relpath(path, HERE)
 
@@ -458,7 +474,7 @@ def main(argv=None):
                 best = v
         else:
             best = v
-        path = write_replay(pid, b, best["case"], best["detail"])
+        path = write_replay(pid, b, best["case"], best["detail"], v["sub"])
         v["replay"] = path
         viol_lines.append((b, path, best["detail"]))
     wall = time.time() - t0
@@ -471,6 +487,7 @@ def main(argv=None):
         buckets=[dict(bucket=b, count=v["count"], detail=v["detail"][:300], known=(b in known),
                       replay=v.get("replay")) for b, v in sorted(m.buckets.items())],
         explanation=getattr(mod, "EXPLANATION", ""),
+        known_findings_excluded=dict(m.known_hits),
     )
     ev = dict(property_id=pid, tier=a.tier, seed=seed, level="exploration", coverage=coverage,
               assumptions=list(getattr(mod, "ASSUMPTIONS", [])), wall_s=round(wall, 2), violations=len(new_buckets))
@@ -486,6 +503,12 @@ def main(argv=None):
     for b, v in sorted(m.buckets.items()):
         if b in known:
             say(f"KNOWN-FINDING: property={pid} {known[b]} (bucket={b}, {v['count']} cases)")
+    for b, n in sorted(m.known_hits.items()):
+        if b in known and b not in m.buckets:
+            say(f"KNOWN-FINDING: property={pid} {known[b]} (bucket={b}, observed and excluded in {n} cases)")
+        elif b not in known:   # a check may only exclude what the findings file lists
+            say(f"HARNESS-ERROR: check excluded bucket {b} which is not listed in KNOWN_FINDINGS.txt")
+            return 2
     if m.harness_errors:
         say(f"HARNESS-ERROR: {len(m.harness_errors)} error(s); first:")
         h = m.harness_errors[0]
